@@ -46,7 +46,7 @@ func (d Exec) Apply(opt *Option, profileRaw string) (string, error) {
 		if _, present := opt.ArgMap[name]; !present || slices.Index(opt.ArgList, name) != i {
 			continue
 		}
-		profiletoTransition := prebuild.RootApparmord.Join(name).MustReadFileAsString()
+		profiletoTransition := profileFile(name).MustReadFileAsString()
 		dstProfile := aa.DefaultTunables()
 		if _, err := dstProfile.Parse(profiletoTransition); err != nil {
 			return "", err
